@@ -801,7 +801,7 @@ def run_job(job, validate=False):
     def diff_patch():
         d, p = api._diff_and_patch(_Dev(hw), old, new, acl, None, bool(job.get("add_comments")),
                                    do_commit=bool(job.get("do_commit", True)))
-        return {"diff": rbgen.dump_diff(d), "patch": _dump_patch(p)}
+        return {"diff": rbgen.dump_diff(d), "patch": _dump_patch(p), "contexts": _contexts(d, p)}
     res["diff_patch"] = guarded("_diff_and_patch", diff_patch)
     res["ordered"] = guarded("order_config",
                              lambda: rbgen.to_list(patching.Orderer(rb["ordering"], hw.vendor).order_config(new)))
@@ -810,6 +810,22 @@ def run_job(job, validate=False):
     if validate:
         res["modified"] = modified
     return res
+
+
+def _contexts(diff, pt):
+    """the %context every patch item and every matched rule of the diff carries (it selects the deploy session wrapper)"""
+    def of_patch(t, path=()):
+        for it in t.itms:
+            yield ["/".join(path + (str(it.row),)), sorted((str(k), str(v)) for k, v in (getattr(it, "context", None) or {}).items())]
+            if it.child is not None:
+                yield from of_patch(it.child, path + (str(it.row),))
+
+    def of_diff(d, path=()):
+        for (_op, row, ch, m) in d:
+            ctx = ((m or {}).get("attrs") or {}).get("context") or {}
+            yield ["/".join(path + (row,)), sorted((str(k), str(v)) for k, v in ctx.items())]
+            yield from of_diff(ch, path + (row,))
+    return {"patch": [x for x in of_patch(pt) if x[1]], "diff": [x for x in of_diff(diff) if x[1]]}
 
 
 def _dump_patch(pt):
